@@ -174,6 +174,7 @@ func runC08(r *Run, p *Prog) {
 	// ---- B2
 	r.Guard("B2", func() {
 		n := 0
+		nConv := 0
 		for name, fd := range w.decls() {
 			if fd.Body == nil {
 				continue
@@ -238,6 +239,32 @@ func runC08(r *Run, p *Prog) {
 							if es, ok := list[i-1].(*ast.ExprStmt); ok {
 								if t, ok := w.StmtText[es]; ok {
 									prevAll = t
+								}
+							}
+						}
+						// a conversion into a member of the (tagged) in/out value - `in.<Field> = (T)(...)` - names the tagged
+						// type; a conversion of such a member - `(T)(in.<Field>)` - into a parameter or result the untagged one
+						{
+							line := prevAll
+							if k := strings.LastIndex(line, "\n"); k >= 0 {
+								line = line[k+1:]
+							}
+							intoTagged := strings.HasSuffix(strings.TrimRight(line, " "), "= (") && (strings.Contains(line, "in.") || strings.Contains(line, "out.")) && !strings.Contains(line, "(in.") && !strings.Contains(line, "(out.")
+							fromTagged := false
+							if isTW && i+1 < len(list) {
+								nx := ""
+								if es, ok := list[i+1].(*ast.ExprStmt); ok {
+									nx = w.StmtText[es]
+								}
+								fromTagged = strings.HasPrefix(nx, ")(in.") || strings.HasPrefix(nx, ")(out.")
+							}
+							if (intoTagged || fromTagged) && flagArg != nil {
+								if tv, ok := info.Types[flagArg]; ok && tv.Value != nil && tv.Value.Kind() == constant.Bool {
+									nConv++
+									got := constant.BoolVal(tv.Value)
+									want := intoTagged
+									r.Ob("B2", name, fmt.Sprintf("conversion #%d names the %s variant of the type", nConv, ifs(want, "tagged", "untagged")), call.Pos(), got == want,
+										"the explicit conversion is emitted with the "+ifs(got, "tagged", "untagged")+" variant of the type although the value it is assigned to is declared with the other one: struct types that differ in their tags are not assignable - the output does not compile")
 								}
 							}
 						}
@@ -570,7 +597,19 @@ func runC08(r *Run, p *Prog) {
 				if !ok {
 					return true
 				}
-				be, ok := is.Cond.(*ast.BinaryExpr)
+				condE, negated := is.Cond, false
+				for {
+					if pe, isP := condE.(*ast.ParenExpr); isP {
+						condE = pe.X
+						continue
+					}
+					if ue, isU := condE.(*ast.UnaryExpr); isU && ue.Op == token.NOT {
+						condE, negated = ue.X, !negated
+						continue
+					}
+					break
+				}
+				be, ok := condE.(*ast.BinaryExpr)
 				if !ok {
 					return true
 				}
@@ -606,9 +645,24 @@ func runC08(r *Run, p *Prog) {
 						siblings[f.Name()] = true
 					}
 				}
-				if len(siblings) == 0 {
-					return true
+				// polarity: the guarded block is the one for a non-empty list (it ranges over it, declares the struct for
+				// it); a flipped or negated comparison builds it exactly when the list is empty
+				positive, constant := false, false
+				if lit, isLit := be.Y.(*ast.BasicLit); isLit {
+					switch {
+					case (be.Op == token.GTR || be.Op == token.NEQ) && lit.Value == "0", be.Op == token.GEQ && lit.Value == "1":
+						positive = true
+					case be.Op == token.GEQ && lit.Value == "0", be.Op == token.LSS && lit.Value == "0":
+						constant = true
+					}
 				}
+				rangesOwn := false
+				ast.Inspect(is.Body, func(x ast.Node) bool {
+					if rs, ok := x.(*ast.RangeStmt); ok && types.ExprString(rs.X) == types.ExprString(fsel) {
+						rangesOwn = true
+					}
+					return true
+				})
 				usesOwn, usesSibling := false, ""
 				ast.Inspect(is.Body, func(x ast.Node) bool {
 					if se, ok := x.(*ast.SelectorExpr); ok && types.ExprString(se.X) == base {
@@ -621,7 +675,24 @@ func runC08(r *Run, p *Prog) {
 					return true
 				})
 				n++
+				if negated {
+					positive = !positive && !constant
+				}
+				usesOwnEarly := false
+				ast.Inspect(is.Body, func(x ast.Node) bool {
+					if se, ok := x.(*ast.SelectorExpr); ok && types.ExprString(se.X) == base && se.Sel.Name == asel.Sel.Name {
+						usesOwnEarly = true
+					}
+					return true
+				})
+				if rangesOwn || usesOwnEarly || constant {
+					r.Ob("B12", fd.Name.Name, fmt.Sprintf("the block that ranges over %s.%s.Fields is built for a non-empty list (#%d)", base, asel.Sel.Name, ord[fd.Name.Name+"/"+asel.Sel.Name]+1), is.Pos(), positive && !constant,
+						"the comparison `"+types.ExprString(is.Cond)+"` guarding the block that serialises the list is not `len(...) > 0`: the struct is built for methods without such parameters and nil is passed for methods that have them (or the test is constant)")
+				}
 				ord[fd.Name.Name+"/"+asel.Sel.Name]++
+				if len(siblings) == 0 {
+					return true
+				}
 				r.Ob("B12", fd.Name.Name, fmt.Sprintf("the block guarded by len(%s.%s.Fields) (#%d) encodes that parameter list", base, asel.Sel.Name, ord[fd.Name.Name+"/"+asel.Sel.Name]), is.Pos(), usesOwn || usesSibling == "",
 					"the guard tests "+base+"."+asel.Sel.Name+" but the guarded text is built from "+base+"."+usesSibling+" only: for a method with one list empty and the other not, the stub drops the caller's arguments (or declares values it has no fields for)")
 				return true
